@@ -282,11 +282,13 @@ def oracle(scn, dev, log, out):
 def oracle_resv(scn, log, resv):
     """every Get request carries the reservation it has to: the one just obtained when the previous
     exchange was a successful Reserve; the same as the previous request when that one is repeated
-    (0xC3 / 0xCE / raised node-busy); otherwise (first request of a chunk) the reservation the operation holds - supplied by the
-    caller or obtained at its start.  Never a value remembered from an earlier operation."""
+    (0xC3 / 0xCE / raised node-busy); otherwise (first request of a chunk) the reservation the operation was
+    given / obtained at its start, or the one it most recently renewed to.  Never a value remembered from an
+    earlier operation."""
     store = scn['store']
     held = resv
-    prev = None           # (kind, ...) of the previous exchange
+    latest = resv         # most recently obtained in THIS operation (or supplied by the caller)
+    prev = None           # the previous exchange
     for i, x in enumerate(log):
         if x.netfn != NETFN[store]:
             continue
@@ -296,6 +298,7 @@ def oracle_resv(scn, log, resv):
                 rid = x.reply[1] | x.reply[2] << 8
                 if held is None:
                     held = rid
+                latest = rid
                 prev = ('reserve', rid)
             else:
                 prev = ('reserve-failed',)
@@ -305,15 +308,15 @@ def oracle_resv(scn, log, resv):
         got = x.data[0] | x.data[1] << 8
         chunk = bytes(x.data[2:6])
         if prev and prev[0] == 'reserve':
-            want = prev[1]
+            allowed = (prev[1],)
         elif prev and prev[0] == 'get' and prev[2] == chunk and prev[3]:
-            want = prev[1]
+            allowed = (prev[1],)
         else:
-            want = held
-        if want is not None and got != want:
+            allowed = (held, latest)      # a new chunk fetch: what the operation was given, or what it renewed to
+        if held is not None and got not in allowed:
             return ('sdr-read:stale-reservation',
-                    'request %d (offset %d) carries reservation 0x%04x, the most recently obtained / held one is 0x%04x'
-                    % (i, x.data[4], got, want))
+                    'request %d (offset %d) carries reservation 0x%04x; this operation holds 0x%04x and most recently obtained 0x%04x'
+                    % (i, x.data[4], got, held, latest))
         again = (not isinstance(x.reply, (bytes, bytearray))) or bytes(x.reply) in (b'\xc3', b'\xce')
         prev = ('get', got, chunk, again)       # again: the helper / send_message repeats this very request
     if len(log) > 483 * max(1, len(scn[store])) + 3:
